@@ -122,11 +122,13 @@ def make_units(tier, monitors_=('nostate',)):
                           'shard': [0, 1], 'monitors': list(monitors_), 'policy': pol})
     from mc.props import c10_seq
     units.extend(c10_seq.make_units(tier))
+    # the library's own take-N subscriber (CollectorSubscriber) as the application that ends the interaction
+    units.append({'kind': 'collector', 'rules': 'C10', 'bound': 0, 'name': 'collector-take-released', 'shard': [0, 1], 'flavour': 'tcp', 'fs': None, 'inters': []})
     return units
 
 
 def bounds(tier):
-    us = [u for u in make_units(tier) if u.get('kind') != 'seq']
+    us = [u for u in make_units(tier) if u.get('kind') not in ('seq', 'collector')]
     return {'interrupted_fragment_sequences_depth': 4 if tier == 'quick' else 5, 'endings': [e[0] for e in endings()], 'deviation_bounds': sorted({u['bound'] for u in us}),
             'scenario_configs': len({(u['name'], repr(u['inters']), u['flavour'], u['fs']) for u in us})}
 
@@ -147,6 +149,9 @@ def run_unit(unit, part):
     if unit.get('kind') == 'seq':
         from mc.props import c10_seq
         return c10_seq.run_unit(unit, part)
+    if unit.get('kind') == 'collector':
+        from mc.props import c09
+        return c09.run_unit(unit, part)
     scn = scenario_of(unit)
     dev_explore(scn, unit['bound'], part, shard=tuple(unit['shard']), det_every=200)
 
@@ -160,4 +165,7 @@ def replay(rec):
     if w.get('kind') == 'seq':
         from mc.props import c10_seq
         return c10_seq.replay(rec)
+    if w.get('kind') == 'collector':
+        from mc.props import c09
+        return c09.replay(rec)
     return bool(replay_witness(scenario_from(w['scenario'], w['params']), w))
